@@ -900,6 +900,19 @@ def fit_call(sess, op, step, out, stats, log):
         stats["returned_cost_undefined_near_zero_prediction"] = stats.get("returned_cost_undefined_near_zero_prediction", 0) + 1
     elif not (c1 <= c0 + 1e-9 * abs(c0) + 1e-12):
         out.append(fail("C18.descent", step, "cost at the returned point %r exceeds cost at the start %r (start %s -> %s)" % (c1, c0, start.tolist(), xhat.tolist())))
+    # the same clause judged by the reference (stated loss of the reference trajectory) instead of by the library's
+    # own cost(): a cost() that mis-reports an undefined loss must not be able to vouch for the fit
+    try:
+        c0r, y0r = ref_cost(sess, d, list(start))
+        c1r, y1r = ref_cost(sess, d, list(xhat))
+        if np.isfinite(c0r) and np.isfinite(c1r) and np.isfinite(c0):
+            slack = loss_slack(d, y0r) + loss_slack(d, y1r) + 1e-6 * (1.0 + abs(c0r))
+            stats["fits_judged_by_reference"] = stats.get("fits_judged_by_reference", 0) + 1
+            if c1r > c0r + slack and np.all(xhat >= lb - 1e-12) and np.all(xhat <= ub + 1e-12):
+                out.append(fail("C18.descent", step, "the stated loss of the true trajectory at the returned point is %r, at the start %r (start %s -> %s; the library's own cost reports %r -> %r)" % (
+                    c1r, c0r, start.tolist(), xhat.tolist(), c0, c1)))
+    except (refsolve.RefSolveError, ValueError, OverflowError, FloatingPointError):
+        pass
     if op.get("at_truth"):
         truth = np.array(op["truth"], float)
         if np.any(np.abs(xhat - truth) > 1e-6 * (1 + np.abs(truth))):
@@ -1317,6 +1330,23 @@ def gen_loss_def(rng, lid, ref, name, theta_true, x0, t0, tmax, box, pos, classe
             d["weights"] = [round(rng.uniform(0.3, 2.0), 3) for _ in range(ns)]
         else:
             d["weights"] = [[round(rng.uniform(0.3, 2.0), 3) for _ in range(ns)] for _ in range(T)]
+    if d.get("weights") is not None and not isinstance(d["weights"], float) and rng.random() < 0.25:
+        # structured weights whose mean is exactly 1 (0.5 / 1.5 alternating, a down-weighted and an up-weighted
+        # observation, normalised weights): not unit weights, although every summary of them looks like it
+        def pat(k_):
+            v_ = [0.5 if j % 2 == 0 else 1.5 for j in range(k_)]
+            if k_ % 2 == 1:
+                v_[-1] = 1.0
+            if rng.random() < 0.4 and k_ >= 2:
+                v_ = [1.0] * k_
+                v_[0], v_[-1] = 0.25, 1.75
+            return v_
+        w_ = d["weights"]
+        if isinstance(w_[0], list):
+            flat = pat(len(w_) * len(w_[0]))
+            d["weights"] = [flat[i * len(w_[0]):(i + 1) * len(w_[0])] for i in range(len(w_))]
+        else:
+            d["weights"] = pat(len(w_))
     if allow_targets and p >= 2 and rng.random() < 0.4:
         d["target_param"] = rng.sample(ref.param_names, rng.randint(1, p - 1 if rng.random() < 0.7 else p))
     if allow_targets and rng.random() < 0.3:
